@@ -10,4 +10,4 @@ RULE = ("seeded histories of 20-200 list/set/hash commands over a 10-key pool pr
 
 def run(tier):
     from . import expiry_mini
-    return modeldiff.run("C03", tier, "gen:gen_coll_cmd", RULE + "; plus collections with a TTL emptied element by element, re-created without TTL, read two sweeper passes after the old deadline", extra_fn=expiry_mini.collections_emptied_and_recreated)
+    return modeldiff.run("C03", tier, "gen:gen_coll_cmd", RULE + "; plus collections with a TTL emptied element by element, re-created without TTL, read two sweeper passes after the old deadline; 4% of the commands travel through redis.pcall in a script (effect on the dataset = that of the direct command); in 1 of 30 histories the server is saved, killed and restarted on its dump at a random step", extra_fn=expiry_mini.collections_emptied_and_recreated, script_prob=0.04, restart_prob=0.03)
